@@ -40,6 +40,8 @@ type ctrlWorld struct {
 	watchBlock    bool // next Watch call blocks until cancelled
 	listFaultAt   int
 	listFaultKind string
+	slowSync      bool // the sync of list listFaultAt-1 takes 2.5 periods (a slow filter)
+	slowArmed     atomic.Bool
 	backlog       int // server changes since the watch was last seen connected at a quiescent point
 }
 
@@ -221,14 +223,23 @@ func runCtrlScenario(t *testing.T, tr *tracer, idx int, seed uint64, mode string
 			w.listFaultAt = 1 + r.Intn(4)
 			w.listFaultKind = kv.Pick(r, []string{"error", "canceled", "nil", "nonlist", "status", "nonobjects"})
 		}
+		if mode == "c14" && w.listFaultAt >= 2 && r.Chance(1, 2) {
+			// the controller is busy (a filter that takes 2.5 periods during one sync) while the failing list and
+			// the one after it would be due: the failure must still be delivered
+			w.slowSync = true
+			w.period = kv.Pick(r, []time.Duration{10 * time.Second, time.Minute})
+		}
 		w.srv.RVStep = 1 + r.Intn(3)
-		if r.Chance(1, 4) {
+		if r.Chance(1, 4) && !w.slowSync {
 			w.srv.ListLatency = kv.Pick(r, []time.Duration{100 * time.Millisecond, w.period / 4})
 			if w.srv.ListLatency > time.Hour {
 				w.srv.ListLatency = time.Second
 			}
 		}
 		w.srv.ListFault = func(n int) (runtime.Object, error, bool) {
+			if w.slowSync && n == w.listFaultAt-1 {
+				w.slowArmed.Store(true)
+			}
 			if w.listFaultAt > 0 && n == w.listFaultAt {
 				o, err := listFault(w.listFaultKind)
 				return o, err, true
@@ -254,6 +265,16 @@ func runCtrlScenario(t *testing.T, tr *tracer, idx int, seed uint64, mode string
 		for i := r.Intn(4); i > 0; i-- {
 			w.srvEvent()
 		}
+		if w.slowSync {
+			w.srvEvent() // at least one object, so that the filter is consulted
+			rootF = kv.Term{Op: "and", Kids: []kv.Term{rootF, {Op: "fn", N: 2}}}
+			kv.FNHook = func() {
+				if w.slowArmed.CompareAndSwap(true, false) {
+					time.Sleep(w.period*5/2 + w.period/10)
+				}
+			}
+			defer func() { kv.FNHook = nil }()
+		}
 		b := kcache.NewBuilder().Context(w.ctx).Log(&kv.Log{Hook: w.hook}).Filter(rootF.Build()).Client(w.srv)
 		b.Lister().RefreshPeriod(w.period)
 		root, err := b.Create()
@@ -272,6 +293,11 @@ func runCtrlScenario(t *testing.T, tr *tracer, idx int, seed uint64, mode string
 		w.wait()
 		w.observe()
 		steps := 10 + r.Intn(16)
+		if w.slowSync {
+			for i := 0; i < w.listFaultAt+4 && !isClosed(root.Done()); i++ {
+				w.step("advance-period", func() { w.advance(w.period + w.period/6) })
+			}
+		}
 		for i := 0; i < steps && !isClosed(root.Done()); i++ {
 			switch x := r.Intn(100); {
 			case x < 36:
